@@ -355,3 +355,90 @@ func describe(ops []porcupine.Operation) string {
 	}
 	return b.String()
 }
+
+// Zero-value messages (built without the constructor): Acked()/Nacked() read the lazily substituted
+// channel field without the mutex by design, so this test runs WITHOUT the race detector and does not
+// judge the probes made during the race. It checks what the property promises there: no call panics or
+// blocks, all callers agree on the winner, and after the join exactly the winner's channel is closed -
+// reading a channel must never change the outcome.
+func TestZeroValueConcurrentReaders(t *testing.T) {
+	defer runtime.GOMAXPROCS(runtime.GOMAXPROCS(0))
+	rapid.Check(t, func(t *rapid.T) {
+		procs := rapid.SampledFrom([]int{2, 4, 16}).Draw(t, "gomaxprocs")
+		settlers := rapid.IntRange(1, 4).Draw(t, "settlers")
+		readers := rapid.IntRange(1, 6).Draw(t, "readers")
+		rounds := rapid.IntRange(50, 400).Draw(t, "rounds")
+		kinds := make([]op, settlers)
+		for i := range kinds {
+			kinds[i] = op(rapid.IntRange(0, 1).Draw(t, "settleOp"))
+		}
+		runtime.GOMAXPROCS(procs)
+		for r := 0; r < rounds; r++ {
+			m := &message.Message{}
+			start := make(chan struct{})
+			var wg sync.WaitGroup
+			results := make([]bool, settlers)
+			panics := make(chan string, settlers+readers)
+			for i := 0; i < settlers; i++ {
+				wg.Add(1)
+				go func(i int) {
+					defer wg.Done()
+					defer func() {
+						if p := recover(); p != nil {
+							panics <- fmt.Sprint(p)
+						}
+					}()
+					<-start
+					results[i] = apply(m, kinds[i])
+				}(i)
+			}
+			for i := 0; i < readers; i++ {
+				wg.Add(1)
+				go func(i int) {
+					defer wg.Done()
+					defer func() {
+						if p := recover(); p != nil {
+							panics <- fmt.Sprint(p)
+						}
+					}()
+					<-start
+					for k := 0; k < 3; k++ {
+						closed(m.Acked())
+						closed(m.Nacked())
+					}
+				}(i)
+			}
+			close(start)
+			done := make(chan struct{})
+			go func() { wg.Wait(); close(done) }()
+			select {
+			case <-done:
+			case <-time.After(lib.Live):
+				t.Fatalf("violation: calls on a zero-value message did not return")
+			}
+			select {
+			case p := <-panics:
+				t.Fatalf("violation: panic on a zero-value message: %s", p)
+			default:
+			}
+			ackWon, nackWon := false, false
+			for i, res := range results {
+				if res && kinds[i] == opAck {
+					ackWon = true
+				}
+				if res && kinds[i] == opNack {
+					nackWon = true
+				}
+			}
+			if ackWon && nackWon {
+				t.Fatalf("violation: an Ack and a Nack both returned true on one message")
+			}
+			a, n := closed(m.Acked()), closed(m.Nacked())
+			if a != ackWon || n != nackWon {
+				t.Fatalf("violation: after the join Acked closed=%v Nacked closed=%v, but Ack won=%v Nack won=%v (settlers %v, %d concurrent readers of Acked()/Nacked())", a, n, ackWon, nackWon, kinds, readers)
+			}
+		}
+		lib.Case(fmt.Sprintf("zero-readers|%d|%v|%d|%d", procs, kinds, readers, rounds), true, "zero-value-concurrent-readers")
+		lib.Sample(map[string]any{"test": "ZeroValueConcurrentReaders", "settlers": fmt.Sprint(kinds), "readers": readers, "rounds": rounds})
+	})
+}
